@@ -248,7 +248,7 @@ func (c *Client) JoinPresence(ctx context.Context, p stanza.Presence, s *xmpp.Se
 		client:  c,
 		session: s,
 
-		join:   make(chan joinCtx, 1),
+		join: make(chan joinCtx, 1),
 		// Buffered so that the notification is not lost if the unavailable
 		// presence is handled before Leave starts waiting for it.
 		depart: make(chan struct{}, 1),
